@@ -51,6 +51,21 @@ def main(tier, replay, t0):
                                           "module does not compile: %s" % dup[0]["message"],
                                           dict(base, rustc=[d["message"] for d in dup][:3])))
                     continue
+                import re as _re
+                consts_ok = {"ENTRY_" + e_.name.upper() for e_ in spec.entries}
+                wrong_ref = []
+                for d in probes.unexpected_rejection(camp, c.id, x["id"]):
+                    m_ = _re.search(r"cannot find value `(ENTRY_[^`]+)`", d.get("message") or "")
+                    if m_ and m_.group(1) not in consts_ok and any(
+                            e_.stage == "vertex" and e_.name.upper().replace("_", "") ==
+                            m_.group(1)[6:].replace("_", "") for e_ in spec.entries):
+                        wrong_ref.append(d)
+                if wrong_ref:
+                    viol.append(Violation("vertex-helper-names-missing-constant", "E0425",
+                                          "a vertex entry helper refers to %s, which the module "
+                                          "does not define" % wrong_ref[0].get("message"),
+                                          dict(base, rustc=[d["message"] for d in wrong_ref][:3])))
+                    continue
                 bad = [d for d in probes.unexpected_rejection(camp, c.id, x["id"])
                        if any(k in (d.get("rendered") or d.get("message") or "") for k in
                               ("VertexEntry", "VertexBufferLayout", "VERTEX_ATTRIBUTES",
